@@ -149,7 +149,17 @@ pub fn judge(e: &Entry, input: &[u8], o: &DecOut) -> Option<(&'static str, Strin
                 return Some(("non-canonical", format!("{}: decoding the re-encoding gives a different set", e.name)));
             }
         } else if re[..] != input[..*pos] {
-            return Some(("non-canonical", format!("{}: bytes {} decode successfully (consuming {} bytes) but the decoded value re-encodes as {}", e.name, vmon_core::hex_short(&input[..*pos], 80), pos, vmon_core::hex_short(re, 80))));
+            let inp = &input[..*pos];
+            let d = inp.iter().zip(re.iter()).position(|(a, b)| a != b).unwrap_or(inp.len().min(re.len()));
+            let ndiff = inp.iter().zip(re.iter()).filter(|(a, b)| a != b).count() + inp.len().abs_diff(re.len());
+            let ctx = |b: &[u8]| vmon_core::hex(&b[d.saturating_sub(4).min(b.len())..(d + 12).min(b.len())]);
+            return Some((
+                "non-canonical",
+                format!(
+                    "{}: {} bytes decode successfully (all consumed: {}) but the decoded value re-encodes to {} bytes differing in {} positions, first at offset {}: input ..{}.. re-encoding ..{}..; input {} re-encoding {}",
+                    e.name, pos, *pos == input.len(), re.len(), ndiff, d, ctx(inp), ctx(re), vmon_core::hex_short(inp, 64), vmon_core::hex_short(re, 64)
+                ),
+            ));
         }
     }
     None
@@ -157,6 +167,7 @@ pub fn judge(e: &Entry, input: &[u8], o: &DecOut) -> Option<(&'static str, Strin
 
 struct Run<'a> {
     sh: &'a mut Shard,
+    reg: &'a [Entry],
     /// (type, kind) -> number of violations minimised so far in this shard
     buckets: std::collections::HashMap<(String, String), u32>,
 }
@@ -202,20 +213,96 @@ impl Run<'_> {
         }
         *n += 1;
         // minimise: same type, same kind
+        let same = |c: &[u8]| matches!(judge(e, c, &(e.dec)(c)), Some((k, _)) if k == kind);
         let base: Vec<u8> = match (e.dec)(input).res {
-            Ok((pos, _)) if kind == "non-canonical" => input[..pos].to_vec(),
+            Ok((pos, re)) if kind == "non-canonical" => {
+                // heal: canonical re-encoding with only the first differing run taken from the input
+                let inp = &input[..pos];
+                let mut healed = None;
+                if re.len() == inp.len() {
+                    if let Some(d) = inp.iter().zip(re.iter()).position(|(a, b)| a != b) {
+                        let mut end = d;
+                        while end < inp.len() && inp[end] != re[end] {
+                            end += 1;
+                        }
+                        let mut c = re.clone();
+                        c[d..end].copy_from_slice(&inp[d..end]);
+                        if c != inp && same(&c) {
+                            healed = Some(c);
+                        }
+                    }
+                }
+                healed.unwrap_or_else(|| inp.to_vec())
+            }
             _ => input.to_vec(),
         };
-        let min = util::minimise(&base, |c| matches!(judge(e, c, &(e.dec)(c)), Some((k, _)) if k == kind), if e.heavy { 1500 } else { 20000 }, !e.heavy);
-        let o = (e.dec)(&min);
-        let (kind2, detail2) = judge(e, &min, &o).unwrap_or((kind, detail));
+        let long = base.len() > 600;
+        let min = util::minimise(&base, same, if e.heavy || long { 1500 } else { 20000 }, !(e.heavy || long), kind == "alloc-bound");
+        // attribute the violation to the innermost registered decoder that shows it on a
+        // suffix of the witness (the same leaf defect surfaces in every enclosing type)
+        let (e2, min2, at) = self.delegate(e, kind, &min);
+        let min2 = if at.is_some() {
+            let same2 = |c: &[u8]| matches!(judge(e2, c, &(e2.dec)(c)), Some((k, _)) if k == kind);
+            util::minimise(&min2, same2, if e2.heavy { 1500 } else { 20000 }, !e2.heavy, kind == "alloc-bound")
+        } else {
+            min2
+        };
+        if at.is_some() {
+            self.sh.hit("violation.attributed_to_inner_type");
+        }
+        let o = (e2.dec)(&min2);
+        let (kind2, detail2) = judge(e2, &min2, &o).unwrap_or((kind, detail));
+        let note = match at {
+            Some(off) => format!(" [first seen while decoding {} at offset {} of a {}-byte input]", e.name, off, min.len()),
+            None => String::new(),
+        };
         self.sh.violate(
             idx,
             kind2,
-            format!("{}:{}:{}", kind2, e.name, util::hex_sig(&min)),
-            detail2,
-            json!({"mode": "decode", "type": e.name, "input_hex": vmon_core::hex(&min), "found_by_mutation": mkind, "original_input_hex": vmon_core::hex_short(input, 400)}),
+            format!("{}:{}:{}", kind2, e2.name, util::hex_sig(&min2)),
+            format!("{}{}", detail2, note),
+            json!({"mode": "decode", "type": e2.name, "input_hex": vmon_core::hex(&min2), "found_by_mutation": mkind, "found_in_type": e.name, "enclosing_input_hex": vmon_core::hex_short(&min, 400)}),
         );
+    }
+
+    /// Find a registered type whose decoder shows the same kind of violation on a suffix
+    /// of `w` (preferring the shortest witness, then registry order).
+    fn delegate<'b>(&self, e: &'b Entry, kind: &str, w: &[u8]) -> (&'b Entry, Vec<u8>, Option<usize>)
+    where
+        'a: 'b,
+    {
+        let o = (e.dec)(w);
+        let starts: Vec<usize> = match (&o.res, kind) {
+            (Ok((pos, re)), "non-canonical") => {
+                let d = w[..*pos].iter().zip(re.iter()).position(|(a, b)| a != b).unwrap_or(0);
+                (d.saturating_sub(160)..=d).collect()
+            }
+            _ => (0..w.len().min(160)).collect(),
+        };
+        let mut best: Option<(usize, usize, usize)> = None; // (witness len, registry index, start)
+        for &s in &starts {
+            for (ri, c) in self.reg.iter().enumerate() {
+                if s == 0 && c.name == e.name {
+                    continue;
+                }
+                let slice = &w[s..];
+                let oc = (c.dec)(slice);
+                if !matches!(judge(c, slice, &oc), Some((k, _)) if k == kind) {
+                    continue;
+                }
+                let wl = match (&oc.res, kind) {
+                    (Ok((pos, _)), "non-canonical") => *pos,
+                    _ => slice.len(),
+                };
+                if best.map_or(true, |b| (wl, ri) < (b.0, b.1)) {
+                    best = Some((wl, ri, s));
+                }
+            }
+        }
+        match best {
+            Some((wl, ri, s)) if wl < w.len() || s > 0 => (&self.reg[ri], w[s..s + wl].to_vec(), Some(s)),
+            _ => (e, w.to_vec(), None),
+        }
     }
 }
 
@@ -250,7 +337,12 @@ fn replay(reg: &[Entry], case: &vmon_core::Value, sh: &mut Shard) -> bool {
 }
 
 pub fn run(ctx: &ChildCtx, sh: &mut Shard) {
-    let reg = c05_gen::registry();
+    let mut reg = c05_gen::registry();
+    // debugging aid: restrict the registry (never set by ./vcheck)
+    if let Ok(only) = std::env::var("C05_ONLY") {
+        let names: Vec<&str> = only.split(';').collect();
+        reg.retain(|e| names.contains(&e.name));
+    }
     if ctx.replaying() {
         if let Some(case) = util::replay_case() {
             if replay(&reg, &case, sh) {
@@ -266,7 +358,7 @@ pub fn run(ctx: &ChildCtx, sh: &mut Shard) {
         }
     };
     let nodebug = ctx.san == "nodebug";
-    let mut run = Run { sh, buckets: Default::default() };
+    let mut run = Run { sh, reg: &reg, buckets: Default::default() };
     let ntypes = reg.len() as u64;
     let mut exercised = std::collections::HashSet::new();
     for idx in ctx.indices() {
@@ -304,7 +396,7 @@ pub fn run(ctx: &ChildCtx, sh: &mut Shard) {
         };
         // the valid encoding itself through the judged path (allocation bound on valid input)
         run.eval(e, idx, "valid", &b, &b);
-        let budget: u64 = if e.heavy { 30 } else { 260 };
+        let budget: u64 = if e.heavy || b.len() > 600 { 30 } else { 260 };
         let budget = if nodebug { budget / 2 } else { budget };
         // --- systematic part
         let n = b.len();
@@ -373,9 +465,15 @@ pub fn run(ctx: &ChildCtx, sh: &mut Shard) {
                 run.eval(e, idx, "bitmap16_sampled", &m, &b);
             }
         }
-        // --- random part
+        // --- random part (skipped for a type whose decoder already showed an unbounded
+        // allocation in this shard: a random length could then demand more than the
+        // allocator's hard limit and abort the whole shard)
         let mut changed_ok = false;
-        for _ in 0..budget {
+        let alloc_seen = run.buckets.get(&(e.name.to_string(), "alloc-bound".to_string())).copied().unwrap_or(0) > 0;
+        if alloc_seen {
+            run.sh.hit("skipped.random_part_after_alloc_violation");
+        }
+        for _ in 0..(if alloc_seen { 0 } else { budget }) {
             let (k, mut m) = util::mutate(&mut r, &b, &other);
             if r.chance(1, 5) {
                 let (_, m2) = util::mutate(&mut r, &m, &other);
